@@ -300,3 +300,41 @@ impl<V: Variant> KeyPool<V> {
         KeyPool { keys, failures }
     }
 }
+
+
+/// Seeds for which the first key-generation candidate that passes the range and norm tests has an f
+/// that vanishes at exactly one root of X^n + 1 mod q, an "end root" (see `reference::keygen`), and so
+/// has to be discarded for that one transform coefficient: selected among `scan` seeds derived from the run seed, with the
+/// reference model of the candidate stream, in parallel child processes. Returns (seed, root).
+pub fn mine_keygen_seeds(seed: u64, n: usize, scan: u64, want: usize, workers: usize) -> Vec<([u8; 32], i64)> {
+    use crate::reference::keygen as rk;
+    const CHUNK: u64 = 200;
+    let base = crate::report::run_seed(seed, "mine-keygen", n as u64);
+    let seed_of = |i: u64| -> [u8; 32] { Prng::new(crate::rng::hash_u64(base, i)).seed32() };
+    let items: Vec<u64> = (0..(scan + CHUNK - 1) / CHUNK).collect();
+    let job = |c: u64| -> Vec<u8> {
+        let roots = rk::end_roots(n);
+        let mut out = Vec::new();
+        for i in c * CHUNK..((c + 1) * CHUNK).min(scan) {
+            if let Some((r, _j)) = rk::discarded_for_end_root(seed_of(i), n, &roots, 8) {
+                out.extend_from_slice(&i.to_le_bytes());
+                out.extend_from_slice(&r.to_le_bytes());
+            }
+        }
+        out
+    };
+    let raw = crate::isolate::fork_map(&items, workers, None, &job);
+    let mut v = Vec::new();
+    for c in &items {
+        if let Some(Ok(b)) = raw.get(c) {
+            for e in b.chunks_exact(16) {
+                let i = u64::from_le_bytes(e[..8].try_into().unwrap());
+                let r = i64::from_le_bytes(e[8..].try_into().unwrap());
+                if v.len() < want {
+                    v.push((seed_of(i), r));
+                }
+            }
+        }
+    }
+    v
+}
